@@ -4,7 +4,7 @@
 
 /* np.take(a, ind, axis): ind a list of 1..4 entries in [-n, n) (negative entries count from the end), axis in [-DIM, DIM) */
 void h_take(void){
-  u64 shape[3] = {1,1,1}, idx[4], os[4] = {0}, od = 0, ex[4] = {0}, src[3] = {0,0,0}; u32 data[CELLS], ind[4], out = 0;
+  u64 shape[4] = {1,1,1,1}, idx[4], os[4] = {0}, od = 0, ex[4] = {0}, src[4] = {0,0,0,0}; u32 data[CELLS], ind[4], out = 0;
   in_shape(shape, DIM); in_data(data, NCELL);
   u64 ni = in_u64(1, 4); i32 ax = in_i32(-DIM, DIM - 1); u64 an = norm_axis(ax, DIM);
   for (int i = 0; i < 4; i++){ i32 v = in_i32(-MAXE, MAXE - 1); ASSUME(v >= -(i32)shape[an] && v < (i32)shape[an]); ind[i] = (u32)v; }
@@ -27,7 +27,7 @@ void h_take(void){
 }
 /* np.take(a, ind) (axis=None): flat indices in [-numel, numel) */
 void h_take_flat(void){
-  u64 shape[3] = {1,1,1}, idx[4] = {0}, os[4] = {0}, od = 0; u32 data[CELLS], ind[4], out = 0;
+  u64 shape[4] = {1,1,1,1}, idx[4] = {0}, os[4] = {0}, od = 0; u32 data[CELLS], ind[4], out = 0;
   in_shape(shape, DIM); in_data(data, NCELL);
   u64 ni = in_u64(1, 4), numel = prod(shape, DIM);
   for (int i = 0; i < 4; i++){ i32 v = in_i32(-NCELL, NCELL - 1); ASSUME(v >= -(i32)numel && v < (i32)numel); ind[i] = (u32)v; }
@@ -51,7 +51,7 @@ static void in_pair(u64* sa, u64* sb, u32* da, u32* db, u64 an){
 }
 /* np.concatenate((a,b), axis), axis in [-DIM, DIM) */
 void h_concatenate(void){
-  u64 sa[3] = {1,1,1}, sb[3] = {1,1,1}, idx[4], os[4] = {0}, od = 0, ex[4] = {0}, src[3] = {0,0,0}; u32 da[CELLS], db[CELLS], out = 0;
+  u64 sa[4] = {1,1,1,1}, sb[4] = {1,1,1,1}, idx[4], os[4] = {0}, od = 0, ex[4] = {0}, src[4] = {0,0,0,0}; u32 da[CELLS], db[CELLS], out = 0;
   i32 ax = in_i32(-DIM, DIM - 1); u64 an = norm_axis(ax, DIM);
   in_pair(sa, sb, da, db, an);
 #ifdef KF_C04_CONCATENATE_NEGAXIS
@@ -70,7 +70,7 @@ void h_concatenate(void){
 }
 /* np.concatenate((a,b), axis=None): both flattened; shapes independent */
 void h_concatenate_flat(void){
-  u64 sa[3] = {1,1,1}, sb[3] = {1,1,1}, idx[4] = {0}, os[4] = {0}, od = 0; u32 da[CELLS], db[CELLS], out = 0;
+  u64 sa[4] = {1,1,1,1}, sb[4] = {1,1,1,1}, idx[4] = {0}, os[4] = {0}, od = 0; u32 da[CELLS], db[CELLS], out = 0;
   in_shape(sa, DIM); in_shape(sb, DIM); in_data(da, NCELL); in_data(db, NCELL);
   u64 na = prod(sa, DIM), nb = prod(sb, DIM);
   idx[0] = in_u64(0, 2*NCELL - 1); ASSUME(idx[0] < na + nb);
@@ -83,7 +83,7 @@ void h_concatenate_flat(void){
 }
 /* np.stack((a,b), axis): identical shapes, axis in [-(DIM+1), DIM] */
 static void stack_check(int dflt){
-  u64 sa[3] = {1,1,1}, sb[3] = {1,1,1}, idx[4], os[4] = {0}, od = 0, ex[4] = {0}, src[3] = {0,0,0}; u32 da[CELLS], db[CELLS], out = 0;
+  u64 sa[4] = {1,1,1,1}, sb[4] = {1,1,1,1}, idx[4], os[4] = {0}, od = 0, ex[4] = {0}, src[4] = {0,0,0,0}; u32 da[CELLS], db[CELLS], out = 0;
   i32 ax = dflt ? 0 : in_i32(-(DIM + 1), DIM); u64 an = norm_axis(ax, DIM + 1);
   in_pair(sa, sb, da, db, 99);
 #ifdef KF_C04_STACK_NEGAXIS
@@ -104,11 +104,11 @@ void h_stack_default(void){ stack_check(1); }
 
 /* joins that promote both operands to a common dim PD with shape pa/pb (a row-major reshape) and concatenate along JAX */
 static void promoted_join(int which){
-  u64 sa[3] = {1,1,1}, sb[3] = {1,1,1}, pa[4] = {1,1,1,1}, pb[4] = {1,1,1,1}, idx[4], os[4] = {0}, od = 0, ex[4] = {0}, src[4] = {0,0,0,0}; u32 da[CELLS], db[CELLS], out = 0;
+  u64 sa[4] = {1,1,1,1}, sb[4] = {1,1,1,1}, pa[4] = {1,1,1,1}, pb[4] = {1,1,1,1}, idx[4], os[4] = {0}, od = 0, ex[4] = {0}, src[4] = {0,0,0,0}; u32 da[CELLS], db[CELLS], out = 0;
   u64 pd, jax, vax;   /* vax: source axis allowed to differ between a and b */
   if (which == 0){ pd = DIM; jax = DIM == 1 ? 0 : 1; vax = jax; }                     /* hstack */
   else if (which == 1){ pd = DIM == 1 ? 2 : DIM; jax = 0; vax = DIM == 1 ? 99 : 0; }  /* vstack: (N,) -> (1,N) */
-  else if (which == 2){ pd = 3; jax = 2; vax = DIM == 3 ? 2 : 99; }                   /* dstack: (N,) -> (1,N,1); (M,N) -> (M,N,1) */
+  else if (which == 2){ pd = DIM < 3 ? 3 : DIM; jax = 2; vax = DIM >= 3 ? 2 : 99; }                   /* dstack: (N,) -> (1,N,1); (M,N) -> (M,N,1) */
   else { pd = DIM == 1 ? 2 : DIM; jax = 1; vax = DIM == 1 ? 99 : 1; }                 /* column_stack: (N,) -> (N,1) */
   in_pair(sa, sb, da, db, vax);
   for (u64 k = 0; k < DIM; k++){
